@@ -38,6 +38,7 @@ type Obs struct {
 	Ident    Ident
 	Entries  []*Entry
 	Foreign  bool
+	Typed    bool // resolved through the generic helpers
 	Err      error
 	Panic    any
 	StartSeq int64
@@ -243,7 +244,27 @@ func (r *Runner) Resolve(tag int, id Ident) *Obs {
 				o.Entries = append(o.Entries, nil)
 			}
 		}
+		// every other resolution goes through the generic helpers users call
+		// (Resolve/ResolveKeyed/ResolveGroup), the rest through Provider.Get*
+		// (not for identities whose value may legitimately be nil: the helpers
+		// turn a nil service into a type-mismatch error, Get* returns it as is)
+		typed := o.StartSeq%2 == 1 && r.W.typedOK(id)
+		o.Typed = typed
 		switch {
+		case typed && id.Group != "":
+			vs, err := TypedResolveGroup(p, id.T, id.Group)
+			o.Err = err
+			if err == nil {
+				for _, v := range vs {
+					toEntry(v)
+				}
+			}
+		case typed:
+			v, err := TypedResolve(p, id.T, id.Key)
+			o.Err = err
+			if err == nil {
+				toEntry(v)
+			}
 		case id.Group != "":
 			vs, err := p.GetGroup(rt, id.Group)
 			o.Err = err
